@@ -237,6 +237,20 @@ def _select(fn, sel):
         if len(hits) <= sel[1]:
             raise TranslationError(f'version gate #{sel[1]} not found')
         return hits[sel[1]].args[0]
+    if sel[0] == 'ifcall':
+        # ('ifcall', callee, nth): the test of the nth if statement whose *then* branch calls `callee`
+        def calls(nodes, name):
+            for b in nodes:
+                for n in ast.walk(b):
+                    if isinstance(n, ast.Call) and ((isinstance(n.func, ast.Attribute) and n.func.attr == name)
+                                                    or (isinstance(n.func, ast.Name) and n.func.id == name)):
+                        return True
+            return False
+        hits = [n for n in ast.walk(fn) if isinstance(n, ast.If) and calls(n.body, sel[1])]
+        hits.sort(key=lambda n: (n.lineno, n.col_offset))
+        if len(hits) <= sel[2]:
+            raise TranslationError(f'if calling {sel[1]} #{sel[2]} not found')
+        return hits[sel[2]].test
     if sel[0] == 'ifassign':
         # ('ifassign', target, nth): the test of the if statement whose body assigns `target`
         hits = [n for n in ast.walk(fn) if isinstance(n, ast.If) and any(
@@ -420,6 +434,23 @@ SPEC = [
     ('gate_reader_footer', 'read.py', 'SgzReader.__init__', ('versiongate', 0), 'String'),
     ('gate_reader_interval', 'read.py', 'SgzReader._parse_coordinates', ('versiongate', 0), 'String'),
     ('gate_cropper_footer', 'cropping.py', 'SgzCropper.write_cropped_file_by_indexes', ('versiongate', 0), 'String'),
+    # read.py: diagonals
+    ('cd_guard', 'read.py', 'SgzReader.read_correlated_diagonal', ('guard', 0), 'Prop'),
+    ('cd_guard_lo', 'read.py', 'SgzReader.read_correlated_diagonal', ('guard', 1), 'Prop'),
+    ('cd_guard_hi', 'read.py', 'SgzReader.read_correlated_diagonal', ('guard', 2), 'Prop'),
+    ('cd_guard_order', 'read.py', 'SgzReader.read_correlated_diagonal', ('guard', 3), 'Prop'),
+    ('cd_guard_window', 'read.py', 'SgzReader.read_correlated_diagonal', ('guard', 4), 'Prop'),
+    ('cd_branch', 'read.py', 'SgzReader.read_correlated_diagonal', ('ifcall', 'get_trace', 0), 'Prop'),
+    ('cd_index_a', 'read.py', 'SgzReader.read_correlated_diagonal', ('callarg', 'get_trace', 0, 0), 'Int'),
+    ('cd_index_b', 'read.py', 'SgzReader.read_correlated_diagonal', ('callarg', 'get_trace', 1, 0), 'Int'),
+    ('ad_guard', 'read.py', 'SgzReader.read_anticorrelated_diagonal', ('guard', 0), 'Prop'),
+    ('ad_guard_lo', 'read.py', 'SgzReader.read_anticorrelated_diagonal', ('guard', 1), 'Prop'),
+    ('ad_guard_hi', 'read.py', 'SgzReader.read_anticorrelated_diagonal', ('guard', 2), 'Prop'),
+    ('ad_guard_order', 'read.py', 'SgzReader.read_anticorrelated_diagonal', ('guard', 3), 'Prop'),
+    ('ad_guard_window', 'read.py', 'SgzReader.read_anticorrelated_diagonal', ('guard', 4), 'Prop'),
+    ('ad_branch', 'read.py', 'SgzReader.read_anticorrelated_diagonal', ('ifcall', 'get_trace', 0), 'Prop'),
+    ('ad_index_a', 'read.py', 'SgzReader.read_anticorrelated_diagonal', ('callarg', 'get_trace', 0, 0), 'Int'),
+    ('ad_index_b', 'read.py', 'SgzReader.read_anticorrelated_diagonal', ('callarg', 'get_trace', 1, 0), 'Int'),
     # loader.py, 2D
     ('trace_range_offset', 'loader.py', 'SgzLoader2d.read_and_decompress_trace_range', ('assign', 'block_offset', 0), 'Nat'),
     ('trace_range_length', 'loader.py', 'SgzLoader2d.read_and_decompress_trace_range', ('callarg', '_get_compressed_bytes', 0, 1), 'Nat'),
